@@ -393,7 +393,7 @@ def run(ctx):
                 if isinstance(t, ast.Name):
                     val = _subst(s.value, env)
                     if t.id == excl:
-                        if txt(s.value) in (f"{excl} | {{{j}}}", f"{{{j}}} | {excl}", f"{excl}.union({{{j}}})"):
+                        if txt(val) in (f"{excl} | {{{j}}}", f"{{{j}}} | {excl}", f"{excl}.union({{{j}}})"):
                             excl_rebound = True
                         env[excl] = ast.parse(f"{excl}__new", mode="eval").body
                     else:
